@@ -323,6 +323,88 @@ func memoDependencies(r *an.Run, rule string) {
 		}
 	}
 	r.Check(eq, short(ba)+"|name-equality", ba.Pos(), "names are compared for equality")
+	keysAreInsertionOrdered(r)
+}
+
+// keysAreInsertionOrdered: bindsAny takes "the keys this section added" to be
+// the suffix newD.Keys()[len(d.Keys()):]. That is only true if every
+// implementation of data.Data lists its keys oldest first: the keys of the
+// Data it was built on, then its own. The interface does not promise an order,
+// so the contract is checked where it is relied upon (two cooperating sites in
+// two packages: a Keys() that walks the chain newest-first still satisfies its
+// own tests and silently breaks the failure memo of the elision search).
+func keysAreInsertionOrdered(r *an.Run) {
+	n := 0
+	for _, f := range implementations(r, dataRel, "Data", "Keys") {
+		n++
+		key := short(f) + "|keys-oldest-first"
+		recv := recvValue(f)
+		rets := an.Returns(f)
+		good, why := len(rets) > 0, ""
+		for _, ret := range rets {
+			v := ret.Results[0]
+			// a copy of a list (make + copy) lists what the original lists, in the same order
+			if ms, ok := v.(*ssa.MakeSlice); ok {
+				for _, c := range an.CallsTo(f, "builtin:copy") {
+					if c.Common().Args[0] == ssa.Value(ms) {
+						v = c.Common().Args[1]
+					}
+				}
+			}
+			switch {
+			case an.IsNilConst(v):
+				// no keys
+			case loadedField(v) != "" && recv != nil && an.Root(v) == ssa.Value(recv):
+				// a stored list: it must have been filled from a Keys() call (checked where it is stored)
+				field := loadedField(v)
+				filled := false
+				for _, g := range r.P.PkgFuncs(dataRel) {
+					for _, in := range an.StoresIn(g) {
+						st, ok := in.(*ssa.Store)
+						if !ok {
+							continue
+						}
+						fa, ok := st.Addr.(*ssa.FieldAddr)
+						if !ok || fieldNameOf(fa) != field {
+							continue
+						}
+						if c, ok := st.Val.(*ssa.Call); ok && c.Call.IsInvoke() && c.Call.Method.Name() == "Keys" {
+							filled = true
+						} else {
+							good, why = false, "the stored key list is filled from something other than a Keys() result"
+						}
+					}
+				}
+				if !filled {
+					good, why = false, "the stored key list is not filled from a Keys() result"
+				}
+			default:
+				app, ok := v.(*ssa.Call)
+				if !ok || !an.IsCallTo(app, "builtin:append") {
+					good, why = false, "Keys() returns something other than append(<keys of the underlying Data>, <own key>)"
+					continue
+				}
+				base, isCall := app.Call.Args[0].(*ssa.Call)
+				if !isCall || !base.Call.IsInvoke() || base.Call.Method.Name() != "Keys" {
+					good, why = false, "the list Keys() appends to is not the Keys() of the Data it was built on"
+					continue
+				}
+				// the appended element is the receiver's own key
+				own := false
+				for x := range an.BackSlice(app.Call.Args[1], an.SliceOpts{ThroughMemory: true}) {
+					if recv != nil && loadedField(x) != "" && an.Root(x) == ssa.Value(recv) {
+						own = true
+					}
+				}
+				if !own {
+					good, why = false, "the element appended last is not the receiver's own key"
+				}
+			}
+		}
+		r.Check(good, key, f.Pos(), "%s lists the keys of the Data it was built on first and its own key last (insertion order), which bindsAny relies on when it takes newD.Keys()[len(d.Keys()):] for the keys a section added%s", short(f), ifNonEmpty(why, ": "+why))
+	}
+	r.Count("Data.Keys implementations", n)
+	r.Min("Data.Keys implementations", 3)
 }
 
 func valueOf(in ssa.Instruction) ssa.Value {
